@@ -95,6 +95,15 @@ def run(ck, replay=None):
                              dict(label=label, certificate=cert))
             elif rr["rc"] == 124 or rr["timed_out"]:
                 ck.note_inconclusive("%s: watchdog fired without a hang certificate" % label)
+            elif rr["rc"] is not None and rr["rc"] >= 128 and rr["rc"] not in (124, 125):
+                # the probe died from a signal while spawn was handling the refused system call
+                ck.violation("C05/spawn/crash-on-failed-%s" % ("clone" if nr == 56 else "mmap"),
+                             dict(label=label, exit_status=rr["rc"], signal=rr["rc"] - 128,
+                                  faults_injected=len(injected), probe_output_tail=rr["out"][-400:]))
+            elif rr["rc"] == 1 and "Main thread panicked" in rr["err"] and "/verif/probes/" not in rr["err"].split("Main thread panicked", 1)[1][:200]:
+                # tiny-std's own panic handler: a panic inside repository code while spawn handles the refusal
+                ck.violation("C05/spawn/panic-on-failed-%s" % ("clone" if nr == 56 else "mmap"),
+                             dict(label=label, panic=rr["err"].split("Main thread panicked", 1)[1][:300]))
             elif rr["rc"] != 0:
                 ck.note_inconclusive("%s: exit status %s" % (label, rr["rc"]))
             else:
